@@ -1,6 +1,8 @@
 import DroopProofs
 import Props.C02
 import Props.C01
+import DroopProofs.MeekMon
+import DroopProofs.CaseInitMeek
 /-!
 # C09 — candidate status only moves forward; seats are never over-committed
 
@@ -10,6 +12,9 @@ recorded.
 
 * wigm / wigm-prf (non-batch): `wigm_loop_record_monotone`, `wigm_loop_elected_le_seats`, `wigm_seats_filled`;
 * Scottish rule: `scotland_record_monotone` (whole count, epilogue included), `scotland_elected_le_seats` below.
+
+* meek / warren (strict rankings): `meek_record_forward` — whatever the count returns for a case inside `caseOK`, its record is
+  forward-only (`DroopProofs/MeekMon.lean`).
 
 QPQ's restart ("un-elect") is outside these theorems: the QPQ record is judged by `okC09` on both records only.
 -/
@@ -35,5 +40,19 @@ theorem cfer_record_monotone (p : Nat) (batch : Bool) (s0 t : St Int) (hinit : I
     (h : cferCount (fixedArith p) batch s0 = some t) : Mon t ∧ Ext s0 t := by
   have := cfer_result _ (fixed_lawful p) rfl batch s0 t (C01.cfer_start p s0 hinit hfresh henough hround) h
   exact ⟨this.1, this.2.1⟩
+
+/-- meek / warren: the record of whatever the count returns is forward-only (every case with strict rankings inside `caseOK`,
+    every precision, omega and `defeat_batch` setting) -/
+theorem meek_record_forward (p : Nat) (c : Case) (hr : c.rule = "meek" ∨ c.rule = "warren") (hok : caseOK c = true)
+    (t : St Int) (h : runRuleSt (fixedArith p) c = some t) : Mon t := by
+  have hk := caseOK_iff c hok
+  have hm : methodOf c.rule = .meek := by rcases hr with hr | hr <;> rw [hr] <;> rfl
+  have h0 := initState_minit (fixedArith p) (fixed_lawful p) c hm hk
+  unfold runRuleSt at h
+  rcases hr with hr | hr
+  · simp only [runRuleSt', hr] at h
+    exact meek_record_monotone (fixedArith p) (fixed_lawful p) rfl _ _ _ t h0 h
+  · simp only [runRuleSt', hr] at h
+    exact meek_record_monotone (fixedArith p) (fixed_lawful p) rfl _ _ _ t h0 h
 
 end Droop.C09
